@@ -62,8 +62,8 @@ const c14RelChurnLocal = "VAR @q1 := 'x' || 'y'; VAR @q2 := 100 + 1; VAR @q3 := 
 // ways of ending the life of the value held by variable $V ($O another value of the type, $F a computed one)
 type c14RelEnd struct {
 	name, pre, sql string
-	keeps           bool // the variable stays declared
-	thorough        bool
+	keeps          bool // the variable stays declared
+	thorough       bool
 }
 
 var c14RelEnds = []c14RelEnd{
